@@ -289,9 +289,9 @@ def evaluate_laws(plan, ctx):
 
 
 SUBCHECKS = [
-    SubCheck("relabel", relabel_strategy, evaluate_relabel, quick=3000, thorough=50000),
-    SubCheck("permute", permute_strategy, evaluate_permute, quick=3000, thorough=50000),
-    SubCheck("laws", laws_strategy, evaluate_laws, quick=1500, thorough=20000),
+    SubCheck("relabel", relabel_strategy, evaluate_relabel, quick=5000, thorough=50000),
+    SubCheck("permute", permute_strategy, evaluate_permute, quick=5000, thorough=50000),
+    SubCheck("laws", laws_strategy, evaluate_laws, quick=2500, thorough=20000),
 ]
 KNOWN = {}
 
